@@ -122,6 +122,7 @@ func addStats(prefix string, st hist.Stats) {
 	r.EventN("freshness-obligations", st.FreshnessObligations)
 	r.EventN("porcupine-ok", int64(st.PorcupineOK))
 	r.EventN("porcupine-illegal", int64(st.PorcupineIllegal))
+	r.EventN("porcupine-partitions-left-to-the-specialised-monitors", int64(st.PorcupineSkipped))
 	r.EventN("porcupine-unknown", int64(st.PorcupineUnknown))
 	if st.PorcupineUnknown > 0 {
 		r.Inconclusive(fmt.Sprintf("%s: porcupine timed out on %d URL partitions", prefix, st.PorcupineUnknown))
